@@ -20,6 +20,9 @@ def run(tier):
                          extra={"kind2": k2, "traps": False, "exporters": False}))
         cfgs.append(dict(kind=k1, n=4, cfg=dict(CFG, extras=False, read=False), hidden=False, d=0, assertions=0, judge="c18",
                          extra={"kind2": k2, "traps": False, "exporters": False}))
+    # hooks that read the whole forest at every invocation (a validating hook looks at its new parent's children)
+    cfgs.append(dict(kind="named:light", n=3, cfg=dict(CFG, extras=False), hidden=False, d=1, persistent=P2, assertions=0, judge="c18",
+                     extra=dict(extra_q, snap=True), snap=True, name="named:light N=3 d<=1+persist, hooks read the forest A=0"))
     # hooks that themselves move nodes (re-entrant calls): whatever that does, both mixins must do the same
     cfgs.append(dict(kind="named:light", n=3, cfg=dict(CFG, extras=False, read=False), hidden=False, d=0, assertions=0, judge="c18",
                      extra=extra, reenter="moves", name="named:light N=3 hooks that move a node re-entrantly A=0"))
